@@ -123,8 +123,19 @@ func worldDigest(w *qx.World) string {
 	return fmt.Sprintf("%x", core.HashString(sb.String()))
 }
 
+var (
+	describedWorld *qx.World
+	describedAs    map[string]any
+)
+
+// describeWorld renders a world for violation records (memoized for the world of the running case; workers run one
+// case at a time).
 func describeWorld(w *qx.World) map[string]any {
+	if describedWorld == w && describedAs != nil {
+		return describedAs
+	}
 	out := map[string]any{}
+	defer func() { describedWorld, describedAs = w, out }()
 	for _, st := range []string{qx.Things, qx.Owners, qx.Others} {
 		m := map[string]any{}
 		for _, id := range w.Ids(st) {
@@ -320,6 +331,7 @@ func runC01(c *core.Ctx, idx int) {
 type memWorld struct {
 	w      *qx.World
 	tables map[string]*memsym.Table
+	cache  map[string]*memsym.Row
 }
 
 var qxNodeTypes = map[qx.Type]ast.NodeType{qx.TStr: ast.NodeTypeString, qx.TInt: ast.NodeTypeInt64, qx.TFloat: ast.NodeTypeFloat64, qx.TBool: ast.NodeTypeBool, qx.TTime: ast.NodeTypeDatetime, qx.TAny: ast.NodeTypeAnyType}
@@ -346,7 +358,22 @@ func newMemWorld(w *qx.World) *memWorld {
 	return m
 }
 
+// row returns the in-memory row for an entity (built once per world, cursor state reset on every use).
 func (m *memWorld) row(store, id string, depth int) *memsym.Row {
+	key := fmt.Sprintf("%s\x00%s\x00%d", store, id, depth)
+	if r := m.cache[key]; r != nil {
+		r.ResetCursors()
+		return r
+	}
+	r := m.build(store, id, depth)
+	if m.cache == nil {
+		m.cache = map[string]*memsym.Row{}
+	}
+	m.cache[key] = r
+	return r
+}
+
+func (m *memWorld) build(store, id string, depth int) *memsym.Row {
 	src := m.w.Rows[store][id]
 	t := m.tables[store]
 	r := memsym.NewRow(t)
@@ -375,7 +402,7 @@ func (m *memWorld) row(store, id string, depth int) *memsym.Row {
 					continue
 				}
 				seen[lid] = true
-				r.LinkedRows[set] = append(r.LinkedRows[set], m.row(qx.TargetOf(store, set), lid, depth-1))
+				r.LinkedRows[set] = append(r.LinkedRows[set], m.build(qx.TargetOf(store, set), lid, depth-1))
 			}
 		}
 	}
